@@ -685,9 +685,17 @@ impl Xot {
         let clone = self.clone_node(node);
         // add any prefixes from outer scope we may need
         if self.is_element(clone) {
+            // an element without namespace cannot declare a default
+            // namespace: that would move the element into it
+            let skip_default = self.namespace_for_name(self.get_element_name(clone))
+                == self.no_namespace();
+            let empty_prefix = self.empty_prefix();
             let mut namespaces = self.namespaces_mut(clone);
             for (prefix, ns) in prefixes {
                 if namespaces.contains_key(prefix) {
+                    continue;
+                }
+                if skip_default && prefix == empty_prefix {
                     continue;
                 }
                 namespaces.insert(prefix, ns);
